@@ -1,5 +1,7 @@
 import QuantemModel.Model.DatasetProto
+import QuantemModel.Model.ResampleArgs
 open Lean QuantemModel QuantemModel.Proto QuantemModel.Nd QuantemModel.Dataset QuantemModel.Resample
+open QuantemModel.ResampleArgs
 
 /-
 C06 driver.  Exact operations (bin / pad / crop on integer data, calibration of every
@@ -12,6 +14,76 @@ namespace DrvC06
 def natOpt : Option Nat → Json
   | none => Json.null
   | some k => Json.num (JsonNumber.fromNat k)
+
+/-- a scalar Python argument: null, true/false, an integer, {"f": rational}, {"np": integer}, {"s": string}, "other" -/
+def scOfJson (j : Json) : Except String Sc :=
+  match j with
+  | .null => pure .none
+  | .bool b => pure (.bool b)
+  | .str _ => pure .other
+  | .num _ => do pure (.int (← j.getInt?))
+  | _ => match j.getObjVal? "f" with
+    | .ok v => do pure (.float (← DrvC03.ratOfJson v))
+    | .error _ => match j.getObjVal? "np" with
+      | .ok v => do pure (.npInt (← v.getInt?))
+      | .error _ => do pure (.str (← strField j "s"))
+
+def pyOfJson (j : Json) : Except String Py :=
+  match j.getObjVal? "t" with
+  | .ok v => do pure (.tuple (← (← v.getArr?).toList.mapM scOfJson))
+  | .error _ => match j.getObjVal? "l" with
+    | .ok v => do pure (.list (← (← v.getArr?).toList.mapM scOfJson))
+    | .error _ => do pure (.sc (← scOfJson j))
+
+def optPy (j : Json) (k : String) (d : Py) : Except String Py :=
+  match j.getObjVal? k with
+  | .ok v => pyOfJson v
+  | .error _ => pure d
+
+def modeOfJson (j : Json) : Except String PadMode :=
+  match j with
+  | .str "edge" => pure (.rule .edge)
+  | .str "wrap" => pure (.rule .wrap)
+  | .str "reflect" => pure (.rule .reflect)
+  | .str "symmetric" => pure (.rule .symmetric)
+  | _ => do
+    let a ← arrField j "constant"
+    if a.size != 2 then throw "constant" else
+    pure (.constant ⟨← DrvC03.ratOfJson a[0]!, ← DrvC03.ratOfJson a[1]!⟩)
+
+/-- a call with only the keywords the caller wrote: what is absent keeps the default of the signature
+(the structure field defaults of Model/ResampleArgs.lean) -/
+def callOfJson (j : Json) : Except String Call := do
+  let m ← strField j "m"
+  let ip := (boolField j "inplace").toOption
+  match m with
+  | "bin" =>
+      let c : BinCall := { factors := ← pyOfJson (← field j "f") }
+      let c := { c with axes := ← optPy j "axes" c.axes }
+      let c := match ip with | some b => { c with inplace := b } | none => c
+      let c ← match j.getObjVal? "reducer" with
+        | .ok v => do pure { c with reducer := ← scOfJson v }
+        | .error _ => pure c
+      pure (.bin c)
+  | "crop" =>
+      let ws ← (← arrField j "widths").toList.mapM DrvC03.pairOfJson
+      let c : CropCall := { widths := ws }
+      let c := { c with axes := ← optPy j "axes" c.axes }
+      let c := match ip with | some b => { c with inplace := b } | none => c
+      pure (.crop c)
+  | "resample" =>
+      let c : RsCall := {}
+      let c := { c with outShape := ← optPy j "out" c.outShape, factors := ← optPy j "fs" c.factors,
+                        axes := ← optPy j "axes" c.axes }
+      let c := match ip with | some b => { c with inplace := b } | none => c
+      pure (.resample c)
+  | "pad" =>
+      let arg ← DrvC03.padOfJson (← field j "arg")
+      let mode ← match j.getObjVal? "mode" with
+        | .ok v => modeOfJson v
+        | .error _ => pure (PadMode.constant ⟨0, 0⟩)
+      pure (.pad arg mode (ip.getD false))
+  | _ => throw s!"unknown method {m}"
 
 def step (_ : Unit) (j : Json) : Unit × Json :=
   match (do
@@ -29,6 +101,27 @@ def step (_ : Unit) (j : Json) : Unit × Json :=
           cur := st'
           outs := outs.push r
         pure (Json.arr outs)
+    | "calls" =>
+        -- {"new": <C03 new request>, "calls": [<call>…]} → outcome and receiver after every call
+        -- (a call that raises leaves the object as it was: `ResampleArgs.stepObj`)
+        let new ← field j "new"
+        let (st, r0) := DrvC03.step {} new
+        match st.cur with
+        | none => pure (Json.arr #[r0])
+        | some d0 =>
+          let mut cur := d0
+          let mut outs : Array Json := #[r0]
+          for cj in (← arrField j "calls") do
+            let c ← callOfJson cj
+            let follow := (boolField cj "follow").toOption.getD false
+            match ResampleArgs.call cur c with
+            | .error e =>
+                outs := outs.push (Json.mkObj [("r", errJson (DrvC03.errName e)), ("recv", DrvC03.dsToJson cur)])
+            | .ok (d', r) =>
+                let rj := match r with | none => Json.null | some x => DrvC03.dsToJson x
+                outs := outs.push (Json.mkObj [("r", okJson rj), ("recv", DrvC03.dsToJson d')])
+                cur := match follow, r with | true, some x => x | _, _ => d'
+          pure (Json.arr outs)
     | "resample" =>
         let shape ← natList (← field j "shape")
         let re ← floatList (← field j "re")
